@@ -1482,8 +1482,9 @@ def oracle_restore(ck, rng, n):
         rep = {'circ': cs, 'pdata': pd, 'attribute': attr}
         if which == 0:
             p = DoThenDecide(CondFn('false'), body)
-            asyncio.run(p.run(circuit, data))
-            d = snap_diff(before, snapshot(circuit, data))
+            out = safe_run(p, circuit, data)
+            d = snap_diff(before, snapshot(circuit, data)) or (
+                None if out == 'ok' else out)
             ck.count(('restore-dtd', attr, x_circ(circuit)))
             if d:
                 ck.violation(
@@ -1493,9 +1494,10 @@ def oracle_restore(ck, rng, n):
         elif which == 1:
             G['script'] = [False]
             p = IfThenElsePass(ScriptPred(), body)
-            asyncio.run(p.run(circuit, data))
+            out = safe_run(p, circuit, data)
             G['script'] = None
-            d = snap_diff(before, snapshot(circuit, data))
+            d = snap_diff(before, snapshot(circuit, data)) or (
+                None if out == 'ok' else out)
             ck.count(('restore-ite', attr, x_circ(circuit)))
             if d:
                 ck.violation(
@@ -1507,10 +1509,11 @@ def oracle_restore(ck, rng, n):
             W._worker = FakeRuntime([])
             try:
                 p = ParallelDo([ActLeaf(1, []), body], CondFn('false'))
-                asyncio.run(p.run(circuit, data))
+                out = safe_run(p, circuit, data)
             finally:
                 W._worker = None
-            d = snap_diff(before, snapshot(circuit, data))
+            d = snap_diff(before, snapshot(circuit, data)) or (
+                None if out == 'ok' else out)
             ck.count(('restore-par', attr, x_circ(circuit)))
             if d:
                 ck.violation(
@@ -1518,6 +1521,88 @@ def oracle_restore(ck, rng, n):
                     f'ParallelDo selected the branch that does nothing, yet {d} '
                     f'shows the unselected branch ({attr})',
                     dict(rep, construct='ParallelDo'))
+
+
+def safe_run(p, circuit, data):
+    try:
+        asyncio.run(p.run(circuit, data))
+        return 'ok'
+    except Exception as e:
+        return 'raised:' + type(e).__name__
+
+
+def oracle_decisions(ck, rng, n):
+    """DoThenDecide keeps the new circuit iff condition(old, new); ParallelDo
+    ends with the first less_than-minimal result (fold order); IfThenElse
+    runs exactly the selected branch"""
+    from bqskit.passes.control import DoThenDecide, IfThenElsePass, ParallelDo
+    import bqskit.runtime.worker as W
+    for it in range(n):
+        nq = rng.randint(1, 3)
+        cs = g_circuit(rng, nq, rng.randint(2, 5))
+        circuit = mk_circ(cs)
+        data = PassData(circuit)
+        n0 = circuit.num_operations
+        G['log'] = None
+        which = it % 3
+        if which == 0:
+            grow = rng.random() < 0.5
+            body = ActLeaf(0, [('append', g_plain_op(rng, nq, 2))] if grow
+                           else [('poplast',)])
+            spec = rng.choice(['opslt', 'opsgt', 'opsle'])
+            out = safe_run(DoThenDecide(CondFn(spec), body), circuit, data)
+            n1 = n0 + 1 if grow else n0 - 1
+            accept = {'opslt': n0 < n1, 'opsgt': n0 > n1, 'opsle': n0 <= n1}[spec]
+            want = n1 if accept else n0
+            ck.count(('dec-dtd', x_circ(circuit), spec, grow))
+            if out != 'ok' or circuit.num_operations != want:
+                ck.violation(
+                    'dothendecide-decision',
+                    f'condition {spec}(old={n0} ops, new={n1} ops) is {accept} '
+                    f'but the circuit has {circuit.num_operations} operations '
+                    f'(outcome {out})',
+                    {'circ': cs, 'cond': spec, 'grow': grow})
+        elif which == 1:
+            k = rng.randint(2, 4)
+            sizes = [rng.randint(0, 3) for _ in range(k)]
+            ws = [ActLeaf(i, [('append', (1, (), (0,)))] * sz + [('put', 'who', i)])
+                  for i, sz in enumerate(sizes)]
+            spec = rng.choice(['opslt', 'opsgt'])
+            W._worker = FakeRuntime([])
+            try:
+                out = safe_run(ParallelDo(ws, CondFn(spec)), circuit, data)
+            finally:
+                W._worker = None
+            best = min(sizes) if spec == 'opslt' else max(sizes)
+            want = sizes.index(best)
+            ck.count(('dec-par', tuple(sizes), spec, x_circ(circuit)))
+            who = data['who'] if 'who' in data else None
+            if out != 'ok' or who != want or circuit.num_operations != n0 + best:
+                ck.violation(
+                    'paralleldo-choice',
+                    f'branches add {sizes} operations, less_than={spec}: the '
+                    f'first preferred result is branch {want}, the pass ended '
+                    f'with branch {who} (outcome {out})', {'circ': cs, 'sizes': sizes,
+                                                    'less_than': spec})
+        else:
+            b = rng.random() < 0.5
+            G['script'] = [b]
+            has_else = rng.random() < 0.6
+            p = IfThenElsePass(ScriptPred(), ActLeaf(0, [('put', 'br', 1)]),
+                               ActLeaf(1, [('put', 'br', 2)]) if has_else else None)
+            out = safe_run(p, circuit, data)
+            left = G['script']
+            G['script'] = None
+            want = 1 if b else (2 if has_else else None)
+            got = data['br'] if 'br' in data else None
+            ck.count(('dec-ite', b, has_else, x_circ(circuit)))
+            if out != 'ok' or got != want or left:
+                ck.violation(
+                    'ifthenelse-branch',
+                    f'condition {b}, else branch present: {has_else}: ran branch '
+                    f'{got}, expected {want}; outcome {out} (the condition must be '
+                    f'evaluated exactly once); outcomes left: {left}',
+                    {'circ': cs, 'cond': b, 'else': has_else})
 
 
 def oracle_control(ck, rng, n):
@@ -1545,9 +1630,133 @@ def oracle_control(ck, rng, n):
         if out != 'ok' or got != want or list(left) != [bool(b) for b in s2]:
             ck.violation(
                 'control-order-or-count',
-                f'executed leaves {got} (outcome {out}), textbook semantics '
-                f'gives {want} for {t_tree(tree)}',
+                f'executed leaves {got} (outcome {out}, {len(left)} outcomes '
+                f'left), textbook semantics gives {want} ({len(s2)} left) for '
+                f'{t_tree(tree)}',
                 {'tree': t_tree(tree), 'script': script, 'leaves': g.leaves})
+
+
+def timelines_without(c, skip_ids):
+    """per-qudit sequence of the operations not in skip_ids"""
+    out = []
+    for q in range(c.num_qudits):
+        tl = []
+        for k in range(c.num_cycles):
+            if not c.is_point_idle((k, q)):
+                op = c[k, q]
+                if id(op) not in skip_ids:
+                    tl.append(x_op(op))
+        out.append(tl)
+    return out
+
+
+def batch_replace_cases(ck, rng, n):
+    """Circuit.batch_replace alone (the write-back primitive), also with
+    replacements on OTHER location sets: cycles vanish and appear, and the
+    points collected before the batch must still hit the intended operations.
+    Oracle: exactly the operations at the given points disappear, exactly the
+    new ones appear, all other operations keep their per-qudit order."""
+    lines, metas = [], []
+    for _ in range(n):
+        nq = rng.randint(2, 5)
+        cs = g_circuit(rng, nq, rng.randint(2, 9), pblock=0.0)
+        c = mk_circ(cs)
+        cells = cell_ops(c)
+        keys = sorted(cells)
+        k = rng.randint(1, min(4, len(keys)))
+        chosen = rng.sample(keys, k)
+        pts, ops, specs = [], [], []
+        mode = rng.choice(['same', 'mixed', 'mixed', 'malformed'])
+        for (cyc, q0) in chosen:
+            old = cells[(cyc, q0)]
+            q = rng.choice(list(old.location))
+            if mode == 'same' or rng.random() < 0.3:
+                loc = list(old.location)
+                rng.shuffle(loc)
+                ar = len(loc)
+                gid = rng.choice(Q1) if ar == 1 else rng.choice(Q2) if ar == 2 else 10
+                spec = (gid, g_params(rng, gid), tuple(loc))
+            else:
+                # another location sharing at least one qudit with the old one
+                ar = rng.choice([1, 2, 2, 3]) if nq >= 3 else rng.choice([1, 2])
+                keep = rng.choice(list(old.location))
+                others = [x for x in range(nq) if x != keep]
+                loc = [keep] + rng.sample(others, ar - 1)
+                rng.shuffle(loc)
+                gid = rng.choice(Q1) if ar == 1 else rng.choice(Q2) if ar == 2 else 10
+                spec = (gid, g_params(rng, gid), tuple(loc))
+            pc, pq = cyc, q
+            if rng.random() < 0.2:
+                pc = cyc - c.num_cycles
+            if rng.random() < 0.2:
+                pq = q - nq
+            pts.append((pc, pq))
+            specs.append(spec)
+        if mode == 'malformed':
+            r = rng.random()
+            if r < 0.4:
+                pts[0] = (c.num_cycles + 2, 0)
+            elif r < 0.7 and nq >= 2:
+                old = cells[chosen[0]]
+                free = [x for x in range(nq) if x not in old.location]
+                if free:
+                    specs[0] = (1, (), (free[0],))
+            else:
+                idle = [(a, b) for a in range(c.num_cycles) for b in range(nq)
+                        if c.is_point_idle((a, b))]
+                if idle:
+                    pts[0] = idle[0]
+        ops = [mk_op(sp) for sp in specs]
+        tx = Texts()
+        before_txt = tx.circ(c)
+        items = ' '.join(f'{a} {b} {tx.op(o)}' for (a, b), o in zip(pts, ops))
+        targeted = {id(cells[kq]) for kq in chosen}
+        tl0 = timelines_without(c, targeted)
+        removed = sorted(x_op(cells[kq]) for kq in chosen)
+        all0 = sorted(x_op(o) for o in cells.values())
+        try:
+            c.batch_replace(pts, ops)
+            ret = 'ok'
+        except (IndexError, ValueError) as e:
+            ret = 'err'
+        lines += ['case', f'breplace {before_txt} {items}']
+        metas.append((cs, pts, specs, mode, ret, x_circ(c)))
+        ck.count(('br', before_txt, items))
+        ck.bump('batch_replace', mode + ':' + ret)
+        if ret == 'ok' and mode != 'malformed':
+            cells1 = cell_ops(c)
+            all1 = sorted(x_op(o) for o in cells1.values())
+            added = sorted(x_op(o) for o in ops)
+            want = sorted([x for x in all0] + added)
+            for x in removed:
+                want.remove(x)
+            new_ids = {id(o) for o in cells1.values() if any(o is n for n in ops)}
+            # the new operations are the objects handed in
+            tl1 = timelines_without(c, new_ids)
+            if all1 != want:
+                ck.violation(
+                    'batch-replace-wrong-operations',
+                    'after batch_replace the operations are not (old - those '
+                    'at the given points + the new ones): the shifted points '
+                    'hit other operations', {'circ': cs, 'points': pts,
+                                             'new': specs})
+            elif tl1 != tl0 and len(new_ids) == len(ops):
+                ck.violation(
+                    'batch-replace-order',
+                    'batch_replace changed the per-qudit order of operations '
+                    'it was not asked to replace', {'circ': cs, 'points': pts,
+                                                    'new': specs})
+    out = ck.driver('control', lines)
+    bad = []
+    for i, (cs, pts, specs, mode, ret, after) in enumerate(metas):
+        rep = out[2 * i + 1].split(' # ')
+        mret = 'ok' if rep[0] == 'ok' else 'err'
+        if mret != ret or (len(rep) > 1 and rep[1] != after):
+            bad.append(({'kind': 'batch_replace', 'circ': cs, 'points': pts,
+                         'new': specs},
+                        f'batch_replace: model {rep[0]} {rep[1] if len(rep) > 1 else ""} '
+                        f'real {ret} {after}'))
+    return bad
 
 
 # ---- documented replace filters, written from the docstring of ForEachBlockPass
@@ -1623,6 +1832,7 @@ def oracle_foreach(ck, rng, n, tables):
         pd = [a for a in g_pdata(rng, nq) if a[0] != 'error']
         for a in pd:
             apply_act(a, circuit, data)
+        from bqskit.passes.control.foreach import default_collection_filter
         name = NAMED[it % len(NAMED)]
         col_spec = rng.choice([None, ('block',), ('all',), ('arity', 2),
                                ('minq', 0), ('notgids', [6, 7])])
@@ -1665,11 +1875,29 @@ def oracle_foreach(ck, rng, n, tables):
         rep = {'circ': cs, 'pdata': pd, 'filter': name, 'collect': col_spec,
                'body': bodies, 'calc': calc}
         ck.count(('fe', x_circ(before), name, str(col_spec), str(bodies), calc))
+        # the bodies used here can only fail by popping an empty circuit
+        body_fails = False
+        for cyc, op in before.operations_with_cycles():
+            if (default_collection_filter(op) if col is None else col(op)):
+                k = (op.gate._circuit.num_operations
+                     if isinstance(op.gate, CircuitGate) else 1)
+                for acts in bodies:
+                    for a in acts:
+                        if a[0] == 'poplast':
+                            if k == 0:
+                                body_fails = True
+                            k -= 1
+                        elif a[0] == 'append':
+                            k += 1
         if out != 'ok':
-            # a body can fail only by popping an empty block
+            if not body_fails:
+                ck.violation(
+                    'foreach-raises',
+                    f'ForEachBlockPass raised ({out}) although no body fails '
+                    '(model graph with an uncoupled highest qudit? unsorted '
+                    'block location?)', rep)
             continue
         # expected selection (own filter)
-        from bqskit.passes.control.foreach import default_collection_filter
         sel = []
         for cyc, op in before.operations_with_cycles():
             pick = (default_collection_filter(op) if col is None else col(op))
@@ -1690,6 +1918,33 @@ def oracle_foreach(ck, rng, n, tables):
                 f'body executions per block {per} != once per selected block '
                 f'{want}', rep)
             continue
+        # (1b) sub-model = induced coupling graph of the connectivity,
+        # renumbered by position in op.location; block parameters set
+        if sel:
+            conn = {tuple(sorted((a, b)))
+                    for a in range(len(data.placement))
+                    for b in range(a + 1, len(data.placement))
+                    if tuple(sorted((data.placement[a], data.placement[b])))
+                    in {tuple(sorted(e)) for e in data.model.coupling_graph}}
+            badm = None
+            for i, (cyc, op) in enumerate(sel):
+                bd = data['ForEachBlockPass_data'][-1][i]
+                loc = list(op.location)
+                want_e = {tuple(sorted((i1, i2)))
+                          for i1 in range(len(loc)) for i2 in range(i1 + 1, len(loc))
+                          if tuple(sorted((loc[i1], loc[i2]))) in conn}
+                got_e = {tuple(sorted(e)) for e in bd.model.coupling_graph}
+                if (got_e != want_e or bd.model.num_qudits != len(loc)
+                        or list(bd.model.radixes) != [before.radixes[q] for q in loc]
+                        or dict(bd['subnumbering']) != {q: j for j, q in enumerate(loc)}
+                        or tuple(bd['point']) != (cyc, loc[0])):
+                    badm = (f'block {i} at location {loc}: sub-model edges '
+                            f'{sorted(got_e)}, expected {sorted(want_e)}; '
+                            f'subnumbering {dict(bd["subnumbering"])}, point '
+                            f'{tuple(bd["point"])}')
+            if badm:
+                ck.violation('foreach-submodel', badm, rep)
+                continue
         # (2) write-back
         cells1 = cell_ops(circuit)
         exp_S = 0.0
@@ -1752,10 +2007,13 @@ def oracle_foreach(ck, rng, n, tables):
                     f'(previous bound {E0}, block errors sum {S})', rep)
             want_E = 1 - (1 - E0) * (1 - S)
             if abs(E1 - want_E) > 1e-7:
+                # (a larger bound does not violate the stated property)
                 ck.violation(
                     'foreach-error-formula',
                     f'reported bound {E1} != 1-(1-E)(1-S) = {want_E} with the '
-                    f'measured block distances (E={E0}, S={S})', rep)
+                    f'measured block distances of the REPLACED blocks (E={E0}, '
+                    f'S={S}); not smaller than the measured distance {truth}',
+                    rep, found_input=False)
 
 
 # =====================================================================
@@ -1967,8 +2225,11 @@ def run(ck):
     # direct oracles on the real code
     oracle_control(ck, rng, 600 if thorough else 120)
     oracle_restore(ck, rng, 240 if thorough else 48)
+    oracle_decisions(ck, rng, 300 if thorough else 60)
     oracle_foreach(ck, rng, 600 if thorough else 100, tables)
 
+    for c_, d_ in batch_replace_cases(ck, rng, 2000 if thorough else 250):
+        disagreements.append((dict(c_, tree=('leaf', 0)), d_))
     disagreements += real_runtime_cases(
         ck, rng, 60 if thorough else 12, tables,
         int(os.environ.get('C11_RT_WAIT', 900 if thorough else 45)))
